@@ -401,7 +401,7 @@ func traverseAST(node *sitter.Node, sourceCode []byte, graph *CodeGraph, current
 			addExpr.Op = expressionNode.Op
 			addExpr.BinaryExpr = expressionNode
 			addExpressionNode := &Node{
-				ID:               GenerateSha256("add_expression" + node.Content(sourceCode)),
+				ID:               GenerateSha256("add_expression" + node.Content(sourceCode) + file),
 				Type:             "add_expression",
 				Name:             node.Content(sourceCode),
 				CodeSnippet:      node.Content(sourceCode),
@@ -418,7 +418,7 @@ func traverseAST(node *sitter.Node, sourceCode []byte, graph *CodeGraph, current
 			subExpr.Op = expressionNode.Op
 			subExpr.BinaryExpr = expressionNode
 			subExpressionNode := &Node{
-				ID:               GenerateSha256("sub_expression" + node.Content(sourceCode)),
+				ID:               GenerateSha256("sub_expression" + node.Content(sourceCode) + file),
 				Type:             "sub_expression",
 				Name:             node.Content(sourceCode),
 				CodeSnippet:      node.Content(sourceCode),
@@ -435,7 +435,7 @@ func traverseAST(node *sitter.Node, sourceCode []byte, graph *CodeGraph, current
 			mulExpr.Op = expressionNode.Op
 			mulExpr.BinaryExpr = expressionNode
 			mulExpressionNode := &Node{
-				ID:               GenerateSha256("mul_expression" + node.Content(sourceCode)),
+				ID:               GenerateSha256("mul_expression" + node.Content(sourceCode) + file),
 				Type:             "mul_expression",
 				Name:             node.Content(sourceCode),
 				CodeSnippet:      node.Content(sourceCode),
@@ -452,7 +452,7 @@ func traverseAST(node *sitter.Node, sourceCode []byte, graph *CodeGraph, current
 			divExpr.Op = expressionNode.Op
 			divExpr.BinaryExpr = expressionNode
 			divExpressionNode := &Node{
-				ID:               GenerateSha256("div_expression" + node.Content(sourceCode)),
+				ID:               GenerateSha256("div_expression" + node.Content(sourceCode) + file),
 				Type:             "div_expression",
 				Name:             node.Content(sourceCode),
 				CodeSnippet:      node.Content(sourceCode),
@@ -469,7 +469,7 @@ func traverseAST(node *sitter.Node, sourceCode []byte, graph *CodeGraph, current
 			compExpr.Op = expressionNode.Op
 			compExpr.BinaryExpr = expressionNode
 			compExpressionNode := &Node{
-				ID:               GenerateSha256("comp_expression" + node.Content(sourceCode)),
+				ID:               GenerateSha256("comp_expression" + node.Content(sourceCode) + file),
 				Type:             "comp_expression",
 				Name:             node.Content(sourceCode),
 				CodeSnippet:      node.Content(sourceCode),
@@ -486,7 +486,7 @@ func traverseAST(node *sitter.Node, sourceCode []byte, graph *CodeGraph, current
 			RemExpr.Op = expressionNode.Op
 			RemExpr.BinaryExpr = expressionNode
 			RemExpressionNode := &Node{
-				ID:               GenerateSha256("rem_expression" + node.Content(sourceCode)),
+				ID:               GenerateSha256("rem_expression" + node.Content(sourceCode) + file),
 				Type:             "rem_expression",
 				Name:             node.Content(sourceCode),
 				CodeSnippet:      node.Content(sourceCode),
@@ -503,7 +503,7 @@ func traverseAST(node *sitter.Node, sourceCode []byte, graph *CodeGraph, current
 			RightShiftExpr.Op = expressionNode.Op
 			RightShiftExpr.BinaryExpr = expressionNode
 			RightShiftExpressionNode := &Node{
-				ID:               GenerateSha256("right_shift_expression" + node.Content(sourceCode)),
+				ID:               GenerateSha256("right_shift_expression" + node.Content(sourceCode) + file),
 				Type:             "right_shift_expression",
 				Name:             node.Content(sourceCode),
 				CodeSnippet:      node.Content(sourceCode),
@@ -520,7 +520,7 @@ func traverseAST(node *sitter.Node, sourceCode []byte, graph *CodeGraph, current
 			LeftShiftExpr.Op = expressionNode.Op
 			LeftShiftExpr.BinaryExpr = expressionNode
 			LeftShiftExpressionNode := &Node{
-				ID:               GenerateSha256("left_shift_expression" + node.Content(sourceCode)),
+				ID:               GenerateSha256("left_shift_expression" + node.Content(sourceCode) + file),
 				Type:             "left_shift_expression",
 				Name:             node.Content(sourceCode),
 				CodeSnippet:      node.Content(sourceCode),
@@ -537,7 +537,7 @@ func traverseAST(node *sitter.Node, sourceCode []byte, graph *CodeGraph, current
 			NEExpr.Op = expressionNode.Op
 			NEExpr.BinaryExpr = expressionNode
 			NEExpressionNode := &Node{
-				ID:               GenerateSha256("ne_expression" + node.Content(sourceCode)),
+				ID:               GenerateSha256("ne_expression" + node.Content(sourceCode) + file),
 				Type:             "ne_expression",
 				Name:             node.Content(sourceCode),
 				CodeSnippet:      node.Content(sourceCode),
@@ -554,7 +554,7 @@ func traverseAST(node *sitter.Node, sourceCode []byte, graph *CodeGraph, current
 			EQExpr.Op = expressionNode.Op
 			EQExpr.BinaryExpr = expressionNode
 			EQExpressionNode := &Node{
-				ID:               GenerateSha256("eq_expression" + node.Content(sourceCode)),
+				ID:               GenerateSha256("eq_expression" + node.Content(sourceCode) + file),
 				Type:             "eq_expression",
 				Name:             node.Content(sourceCode),
 				CodeSnippet:      node.Content(sourceCode),
@@ -571,7 +571,7 @@ func traverseAST(node *sitter.Node, sourceCode []byte, graph *CodeGraph, current
 			BitwiseAndExpr.Op = expressionNode.Op
 			BitwiseAndExpr.BinaryExpr = expressionNode
 			BitwiseAndExpressionNode := &Node{
-				ID:               GenerateSha256("bitwise_and_expression" + node.Content(sourceCode)),
+				ID:               GenerateSha256("bitwise_and_expression" + node.Content(sourceCode) + file),
 				Type:             "bitwise_and_expression",
 				Name:             node.Content(sourceCode),
 				CodeSnippet:      node.Content(sourceCode),
@@ -588,7 +588,7 @@ func traverseAST(node *sitter.Node, sourceCode []byte, graph *CodeGraph, current
 			AndExpr.Op = expressionNode.Op
 			AndExpr.BinaryExpr = expressionNode
 			AndExpressionNode := &Node{
-				ID:               GenerateSha256("and_expression" + node.Content(sourceCode)),
+				ID:               GenerateSha256("and_expression" + node.Content(sourceCode) + file),
 				Type:             "and_expression",
 				Name:             node.Content(sourceCode),
 				CodeSnippet:      node.Content(sourceCode),
@@ -605,7 +605,7 @@ func traverseAST(node *sitter.Node, sourceCode []byte, graph *CodeGraph, current
 			OrExpr.Op = expressionNode.Op
 			OrExpr.BinaryExpr = expressionNode
 			OrExpressionNode := &Node{
-				ID:               GenerateSha256("or_expression" + node.Content(sourceCode)),
+				ID:               GenerateSha256("or_expression" + node.Content(sourceCode) + file),
 				Type:             "or_expression",
 				Name:             node.Content(sourceCode),
 				CodeSnippet:      node.Content(sourceCode),
@@ -622,7 +622,7 @@ func traverseAST(node *sitter.Node, sourceCode []byte, graph *CodeGraph, current
 			BitwiseOrExpr.Op = expressionNode.Op
 			BitwiseOrExpr.BinaryExpr = expressionNode
 			BitwiseOrExpressionNode := &Node{
-				ID:               GenerateSha256("bitwise_or_expression" + node.Content(sourceCode)),
+				ID:               GenerateSha256("bitwise_or_expression" + node.Content(sourceCode) + file),
 				Type:             "bitwise_or_expression",
 				Name:             node.Content(sourceCode),
 				CodeSnippet:      node.Content(sourceCode),
@@ -639,7 +639,7 @@ func traverseAST(node *sitter.Node, sourceCode []byte, graph *CodeGraph, current
 			BitwiseRightShiftExpr.Op = expressionNode.Op
 			BitwiseRightShiftExpr.BinaryExpr = expressionNode
 			BitwiseRightShiftExpressionNode := &Node{
-				ID:               GenerateSha256("bitwise_right_shift_expression" + node.Content(sourceCode)),
+				ID:               GenerateSha256("bitwise_right_shift_expression" + node.Content(sourceCode) + file),
 				Type:             "bitwise_right_shift_expression",
 				Name:             node.Content(sourceCode),
 				CodeSnippet:      node.Content(sourceCode),
@@ -656,7 +656,7 @@ func traverseAST(node *sitter.Node, sourceCode []byte, graph *CodeGraph, current
 			BitwiseXorExpr.Op = expressionNode.Op
 			BitwiseXorExpr.BinaryExpr = expressionNode
 			BitwiseXorExpressionNode := &Node{
-				ID:               GenerateSha256("bitwise_xor_expression" + node.Content(sourceCode)),
+				ID:               GenerateSha256("bitwise_xor_expression" + node.Content(sourceCode) + file),
 				Type:             "bitwise_xor_expression",
 				Name:             node.Content(sourceCode),
 				CodeSnippet:      node.Content(sourceCode),
@@ -669,7 +669,7 @@ func traverseAST(node *sitter.Node, sourceCode []byte, graph *CodeGraph, current
 		}
 
 		invokedNode := &Node{
-			ID:               GenerateSha256("binary_expression" + node.Content(sourceCode)),
+			ID:               GenerateSha256("binary_expression" + node.Content(sourceCode) + file),
 			Type:             "binary_expression",
 			Name:             node.Content(sourceCode),
 			CodeSnippet:      node.Content(sourceCode),
